@@ -16,6 +16,7 @@ EXPLANATION = ("S1-S12 every request builder is abstractly evaluated (path-sensi
 TRUSTED = ['lber serialises shapes faithfully (C07)', 'RFC 4511 shapes transcribed in rules/props/C02.py']
 UNDECIDED = ['byte-level serialisation (C07)', 'arbitrary value sizes']
 ASSUMPTIONS = []
+SHARED = [('C08', ('P3.', 'P4.'), 'S16.filter')]      # the Filter of a SearchRequest is built by the filter compiler's semantic actions
 
 SELF = ('param', 'self')
 LDAP = 'ldap3::ldap::Ldap::'
@@ -108,6 +109,40 @@ def modifiers_consumed(st, base):
         res[m] = v == ('ctor', 'None', ())
     return res
 
+def check_envelope(ctx, f, R='S'):
+    """The LDAPMessage envelope and control encoder (shared by C02 S13/S14 and C19's envelope clause)."""
+    # ------------------------------------------------------------------ S13/S14 envelope and control
+    enc = [p for p in f.hir if p.startswith('<ldap3::protocol::LdapCodec as tokio_util::codec::encoder::Encoder<') and p.endswith('>::encode')]
+    E = hirq.Body(f, f.body(anchors.one('Encoder::encode', enc)))
+    ctx.analysed['bodies'].add(E.path)
+    outs = absx.Interp(f, E, unroll=1, inline=inline_policy, combinators=True).run()
+    msg = ('param', 'msg')
+    ctl = SEQ(OCT(field_of(elem(), 'ctype')),
+              OPT(lambda pc: next((t for a, t in pc if a[0] == 'field' and a[2] == 'crit'), None), BOOL(lit(True)), 'criticality'),
+              OPT(is_some(lambda t, env: t[0] == 'field' and t[2] == 'val'), OCT(some_payload(lambda t, env: t[0] == 'field' and t[2] == 'val')), 'controlValue'))
+    is_msg2 = lambda t, env: t == ('field', msg, '2')
+    ENVELOPE = SEQ(INT(lambda t, env: strip(t) == ('field', msg, '0')), ANY(lambda t, env: t == ('field', msg, '1')),
+                   OPT(is_some(is_msg2), C('C', 0, MANY(some_payload(is_msg2), ctl)), 'controls'))
+    n = 0
+    combos = set()
+    for o in outs:
+        wr = [e for e in o.st.ev if e[0] == 'call' and e[1].endswith('::maybe_wrap')]
+        if not wr:
+            continue
+        n += 1
+        env = {'elems': [], 'pc': o.st.pc}
+        sh = to_shape(wr[0][2][1])
+        mism = compare(sh, ENVELOPE, o.st.pc, env)
+        crit = next((t for a, t in o.st.pc if a[0] == 'field' and a[2] == 'crit'), None)
+        val = is_some(lambda t, env: t[0] == 'field' and t[2] == 'val')(o.st.pc)
+        has = is_some(is_msg2)(o.st.pc)
+        combos.add((has, crit, val))
+        ctx.add(R + '13.envelope-shape', 'controls=%s,crit=%s,val=%s' % (has, crit, val), loc(E.root), not mism, '; '.join(mism)[:400] or 'matches RFC 4511')
+    for need in [(False, None, None), (True, True, True), (True, False, False), (True, True, False), (True, False, True)]:
+        ctx.add(R + '14.control-optionality', str(need), loc(E.root), need in combos, 'no encoder path for (controls, critical, value) = %s' % (need,))
+
+
+
 def run(ctx):
     f = ctx.facts
     Cn = anchors.Conn(f)
@@ -178,35 +213,7 @@ def run(ctx):
         got = f.discr(path)
         ctx.add('S.enumeration', path, '', got == table, '%s = %s, RFC 4511: %s' % (path, got, table))
 
-    # ------------------------------------------------------------------ S13/S14 envelope and control
-    enc = [p for p in f.hir if p.startswith('<ldap3::protocol::LdapCodec as tokio_util::codec::encoder::Encoder<') and p.endswith('>::encode')]
-    E = hirq.Body(f, f.body(anchors.one('Encoder::encode', enc)))
-    ctx.analysed['bodies'].add(E.path)
-    outs = absx.Interp(f, E, unroll=1, inline=inline_policy, combinators=True).run()
-    msg = ('param', 'msg')
-    ctl = SEQ(OCT(field_of(elem(), 'ctype')),
-              OPT(lambda pc: next((t for a, t in pc if a[0] == 'field' and a[2] == 'crit'), None), BOOL(lit(True)), 'criticality'),
-              OPT(is_some(lambda t, env: t[0] == 'field' and t[2] == 'val'), OCT(some_payload(lambda t, env: t[0] == 'field' and t[2] == 'val')), 'controlValue'))
-    is_msg2 = lambda t, env: t == ('field', msg, '2')
-    ENVELOPE = SEQ(INT(lambda t, env: strip(t) == ('field', msg, '0')), ANY(lambda t, env: t == ('field', msg, '1')),
-                   OPT(is_some(is_msg2), C('C', 0, MANY(some_payload(is_msg2), ctl)), 'controls'))
-    n = 0
-    combos = set()
-    for o in outs:
-        wr = [e for e in o.st.ev if e[0] == 'call' and e[1].endswith('::maybe_wrap')]
-        if not wr:
-            continue
-        n += 1
-        env = {'elems': [], 'pc': o.st.pc}
-        sh = to_shape(wr[0][2][1])
-        mism = compare(sh, ENVELOPE, o.st.pc, env)
-        crit = next((t for a, t in o.st.pc if a[0] == 'field' and a[2] == 'crit'), None)
-        val = is_some(lambda t, env: t[0] == 'field' and t[2] == 'val')(o.st.pc)
-        has = is_some(is_msg2)(o.st.pc)
-        combos.add((has, crit, val))
-        ctx.add('S13.envelope-shape', 'controls=%s,crit=%s,val=%s' % (has, crit, val), loc(E.root), not mism, '; '.join(mism)[:400] or 'matches RFC 4511')
-    for need in [(False, None, None), (True, True, True), (True, False, False), (True, True, False), (True, False, True)]:
-        ctx.add('S14.control-optionality', str(need), loc(E.root), need in combos, 'no encoder path for (controls, critical, value) = %s' % (need,))
+    check_envelope(ctx, f, 'S')
 
     # ------------------------------------------------------------------ M1/M2 issue point and streaming search
     O = Cn.op_call
